@@ -26,7 +26,7 @@ ASSUMPTIONS = [
     "crossing or an intermediate product has a denominator above 10**9 the library may round (limit_denominator) "
     "and the comparison uses 1e-8 instead of equality",
 ]
-DECIDING_MONITORS = ("Point2D.__init__:rational-checked", "operator-result:vertices-checked")
+DECIDING_MONITORS = ("operator-result:vertices-checked", "moment:checked")
 CASE_TIMEOUT = 400
 SHARD_SIZE = 20
 
@@ -76,7 +76,7 @@ class Mon:
                 return
             case.count("Point2D.__init__:rational-checked")
             case.judged()
-            for inp, got, name in ((x, self_._x, "x"), (y, self_._y, "y")):
+            for inp, got, name in ((x, self_[0], "x"), (y, self_[1], "y")):
                 if not isinstance(got, Fr) or not wellformed(got):
                     case.violate(
                         "malformed coordinate: Point2D(%r, %r) stores %s=%r (numerator %s, denominator %s)" % (
@@ -95,15 +95,15 @@ class Mon:
                         case.violate("coordinate rounded by more than 1e-9: %r -> %r" % (inp, got), site="Point2D.__init__")
                         return
 
-        m.attach(pol.Point2D, "__init__", post=post_point, label="Point2D.__init__")
+        m.attach_path(pol, "Point2D", "__init__", post=post_point, label="Point2D.__init__")
 
         # ---- crossing of two straight segments ---------------------------------------
         def post_lines(token, args, kwargs, result, exc):
             if exc is not None:
                 return
             ca, cb = args[0], args[1]
-            raw = [p._x for p in ca.ctrlpoints] + [p._y for p in ca.ctrlpoints]
-            raw += [p._x for p in cb.ctrlpoints] + [p._y for p in cb.ctrlpoints]
+            raw = [p[0] for p in ca.ctrlpoints] + [p[1] for p in ca.ctrlpoints]
+            raw += [p[0] for p in cb.ctrlpoints] + [p[1] for p in cb.ctrlpoints]
             if not all(is_rational(v) and wellformed(v) for v in raw):
                 return
             a = S.snap_segment(ca)
@@ -125,7 +125,7 @@ class Mon:
             else:
                 case.violate("Intersection.lines reports (%s, %s) where the oracle finds %s" % (t, s, res[0]))
 
-        m.attach(crv.Intersection, "lines", post=post_lines, label="Intersection.lines")
+        m.attach_path(crv, "Intersection", "lines", post=post_lines, label="Intersection.lines")
 
         # ---- split of a rational polygon ---------------------------------------------
         def pre_split(args, kwargs):
@@ -165,7 +165,7 @@ class Mon:
                 if not ok:
                     case.violate("split of a rational polygon moved the curve by more than 1e-8: " + why)
 
-        m.attach(jc.JordanCurve, "split", pre=pre_split, post=post_split, label="JordanCurve.split")
+        m.attach_path(jc, "JordanCurve", "split", pre=pre_split, post=post_split, label="JordanCurve.split")
         self.mon = m
 
     def remove(self):
